@@ -3,6 +3,8 @@ import XeofsProofs.Lemmas.Small
 import XeofsProofs.Lemmas.Rot
 import XeofsProofs.Props.C01
 import XeofsModel.Generated.Facts
+import XeofsProofs.Lemmas.CpccaModel
+import XeofsProofs.Lemmas.RotModel
 /-!
 # C04 — transform of the training data reproduces the model's scores
 -/
@@ -69,5 +71,21 @@ theorem reorder_then_scale (S : Matrix (Fin m) (Fin k) 𝕜) (σ : Fin k → Fin
   · intro h; funext i j; exact h i j
 
 example : validRotatorOrder ["rotate", "sign", "reorder", "norms"] = false := by decide
+
+/-- **cpcca_transform_training_eq_scores on the executable model**: projecting the fitted field again gives the stored scores,
+for both settings of `normalized` -/
+theorem model_cpcca_transform_training {n p q r k : ℕ} (hk : k ≤ r) (X : XM.Mat n p 𝕜) (Y : XM.Mat n q 𝕜) (Q1 : XM.Mat p r 𝕜)
+    (s : Fin r → ℝ) (Q2 : XM.Mat q r 𝕜) (sgn : Fin k → ℝ) (nz : Bool) :
+    XM.cpccaTransform1 (XM.cpccaFit hk X Y Q1 s Q2 sgn) X nz = XM.cpccaScores1 (XM.cpccaFit hk X Y Q1 s Q2 sgn) nz :=
+  XP.CpccaM.model_transform_training _ X (XP.CpccaM.fit_scores1_def hk X Y Q1 s Q2 sgn) nz
+
+/-- **rotator_transform_training_eq_scores on the executable model**: `XM.rotTransform` applied to the data the unrotated model
+was fitted on (`scores₀ = X · comps₀`) returns exactly the stored rotated scores -/
+theorem model_rot_transform_training {n p k : ℕ} (comps0 : XM.Mat p k 𝕜) (expvar0 : Fin k → ℝ) (scores0 : XM.Mat n k 𝕜)
+    (svals0 : Fin k → ℝ) (R RinvT : XM.Mat k k 𝕜) (sgn : Fin k → ℝ) (perm : Fin k → Fin k) (X : XM.Mat n p 𝕜)
+    (h : scores0 = X.mul comps0) :
+    XM.rotTransform (XM.rotFit comps0 expvar0 scores0 svals0 R RinvT sgn perm) comps0 svals0 RinvT perm X
+      = (XM.rotFit comps0 expvar0 scores0 svals0 R RinvT sgn perm).scores :=
+  XP.RotM.model_transform_training comps0 expvar0 scores0 svals0 R RinvT sgn perm X h
 
 end C04
